@@ -303,7 +303,69 @@ def r7_generic_matching_is_faithful(ctx):
         ctx.ob('C06.R7', ob.key, ob.ok, ob.loc, ob.detail, ob.nontrivial)
 
 
+def r8_the_handler_found_for_the_type_is_the_one_used(ctx):
+    from ..govern import controlling_switches
+    from ..flow import forward_derived
+    ctx.rule('C06.R8', 'P12 decision audit in `ComponentDb::attach_missing_error_handlers`: the handler looked up for the error\'s OWN type '
+             '(`get_or_try_bind(scope, error_type, ..)`, the lookup that is not keyed by `pavex_error`) is the handler that gets attached whenever the lookup '
+             'finds a valid one. The places where the payload of that result is opened are governed by the shape of that result only (Some / None, '
+             'Valid / Invalid) — by no other lookup, scope comparison or flag: "the catch-all registered closer wins" sends the error to a handler that was '
+             'not written for it, and the dedicated handler never runs.')
+    item = PX + 'analyses::components::db::ComponentDb::attach_missing_error_handlers'
+    bodies = [b for b in ctx.fb.bodies_of_item('pavexc', item) if not b.is_promoted]
+    if not ctx.need('C06.R8', 'attach_missing_error_handlers', bodies):
+        return
+    n = 0
+    for b in bodies:
+        defs = Defs(b)
+        for bb, t in b.calls():
+            if not (callee(t) or '').endswith('ErrorHandlersDb::get_or_try_bind') and not (callee(t) or '').endswith('::get_or_try_bind'):
+                continue
+            key = op_place(t['args'][2]) if len(t['args']) > 2 else None
+            names = set()
+            if key is not None:
+                sl, _ = backward_slice(b, key['l'], defs)
+                from ..govern import field_reads_of_slice
+                names = {f for f in field_reads_of_slice(sl)} if sl else set()
+            if any('pavex_error' in str(x) for x in names):
+                continue            # the catch-all lookup
+            n += 1
+            R = t['dest']['l']
+            d = forward_derived(b, {R}, defs)
+            opened = set()
+            for xb, j, st in b.all_assigns():
+                ops, pls = __import__('pvx.flow', fromlist=['rv_operands']).rv_operands(st['rv'])
+                for q in pls + [op_place(o) for o in ops if op_place(o) is not None]:
+                    if q['l'] in d and any(p.startswith('d:Valid') for p in q.get('p', [])):
+                        opened.add(xb)
+            if not opened:
+                ctx.ob('C06.R8', 'payload-opened', False, b.loc(bb, t), 'the valid handler found for the error type is never opened in this body')
+                continue
+            bad = []
+            for xb in sorted(opened):
+                for sb, st in controlling_switches(b, xb):
+                    if b.dominates(sb, bb):
+                        continue            # decided before the lookup was made (the loop, earlier `continue`s)
+                    pl = op_place(st['d']) if 'd' in st else None
+                    src = st.get('src')
+                    l = src['l'] if src else (pl['l'] if pl else None)
+                    if l is None:
+                        continue
+                    if l in d:
+                        continue
+                    sl, _ = backward_slice(b, l, defs)
+                    cs = sorted({(x or '?').split('::')[-1].split('<')[0] for x, _, _ in slice_calls(sl)} - {'get_or_try_bind'})
+                    if not cs and any((nd is t) for _, _, nd in sl):
+                        continue
+                    bad.append('%s at %s' % (cs or 'a flag', b.loc(sb)))
+            ctx.ob('C06.R8', 'specific-handler-used-when-found', not bad, b.loc(bb, t),
+                   'the payload of the type-specific lookup is opened under conditions that derive from the lookup itself%s' % (
+                       '' if not bad else ' — NO: also from ' + '; '.join(sorted(set(bad)))))
+    ctx.floor('C06.R8', 'type-specific handler lookups in attach_missing_error_handlers', n, 1)
+
+
 def check(ctx):
+    r8_the_handler_found_for_the_type_is_the_one_used(ctx)
     r7_generic_matching_is_faithful(ctx)
     r6_observers_recorded_per_handler(ctx)
     r1_build_order(ctx)
